@@ -73,7 +73,7 @@ def main(argv):
     canaries = []
     seen_units = set()
     for r in results:
-        if r.tool_error or (r.unit, r.mode) in seen_units:
+        if r.tool_error or any(f.kind == 'tool' for f in r.failures) or (r.unit, r.mode) in seen_units:
             continue
         seen_units.add((r.unit, r.mode))
         ok, detail = run.axiom_canary(r, workdir)
